@@ -122,7 +122,13 @@ class Conn:
     def feed(self, frame):
         """hand one text frame (or python object to be JSON encoded) to the relay"""
         if not isinstance(frame, str):
-            frame = json.dumps(frame, ensure_ascii=False, separators=(",", ":"))
+            obj = frame
+            frame = json.dumps(obj, ensure_ascii=False, separators=(",", ":"))
+            try:
+                frame.encode("utf-8")
+            except UnicodeEncodeError:
+                # lone surrogates cannot travel in a UTF-8 text frame; their JSON escapes can
+                frame = json.dumps(obj, ensure_ascii=True, separators=(",", ":"))
         self.delivered += 1
         self.rig.rec.log(self.name, "feed", frame)
         self.inbox.put_nowait(frame)
